@@ -4,10 +4,17 @@ Local Open Scope N_scope.
 From Jawk Require Gen.ByteSets Gen.PrinterTables.
 
 (* escapes: the parser's table is the table in the source; the printer's escapes invert it *)
-Lemma parser_escapes_ok : escape_table = Gen.ByteSets.parser_escapes.
-Proof. reflexivity. Qed.
-Lemma printer_escapes_ok : print_escapes = Gen.PrinterTables.printer_escapes.
-Proof. reflexivity. Qed.
+(* the same finite map: the same pairs, whatever their order in the two lists (keys are distinct on both sides) *)
+Definition pair_in (e : N * N) (l : list (N * N)) : bool := existsb (fun x => N.eqb (fst x) (fst e) && N.eqb (snd x) (snd e)) l.
+Definition same_pairs (a b : list (N * N)) : bool := forallb (fun e => pair_in e b) a && forallb (fun e => pair_in e a) b.
+Fixpoint keys_distinct (l : list (N * N)) : bool :=
+  match l with [] => true | e :: t => negb (existsb (fun x => N.eqb (fst x) (fst e)) t) && keys_distinct t end.
+Lemma parser_escapes_ok : same_pairs escape_table Gen.ByteSets.parser_escapes = true /\
+  keys_distinct escape_table = true /\ keys_distinct Gen.ByteSets.parser_escapes = true.
+Proof. repeat split; vm_compute; reflexivity. Qed.
+Lemma printer_escapes_ok : same_pairs print_escapes Gen.PrinterTables.printer_escapes = true /\
+  keys_distinct print_escapes = true /\ keys_distinct Gen.PrinterTables.printer_escapes = true.
+Proof. repeat split; vm_compute; reflexivity. Qed.
 Lemma escapes_inverse :
   forallb (fun e => match assoc_N (snd e) escape_table with Some c => N.eqb c (fst e) | None => false end) print_escapes = true.
 Proof. reflexivity. Qed.
